@@ -662,6 +662,14 @@ func (e fixEvaluator) RoundTrip(ctIn, opOut *rlwe.Ciphertext) {
 	}
 }
 
+// RESIZEFIRST control: the second component is viewed before the receiver is given its degree
+func (e fixEvaluator) ViewThenResize(op0, opOut *rlwe.Ciphertext) {
+	c1 := opOut.Value[1]
+	opOut.Resize(1, op0.Level())
+	e.r.Add(op0.Value[1], op0.Value[1], c1)
+	*opOut.MetaData = *op0.MetaData
+}
+
 func rnsBad(r *ring.Ring, v uint64) (rns ring.RNSScalar) {
 	rns = make(ring.RNSScalar, r.Level()+1)
 	for i := range rns {
